@@ -387,6 +387,31 @@ func (e *sqlEval) stmt(st ast.Stmt, onReturn func(*sqlEval, *ast.ReturnStmt)) []
 		if s.Else == nil && hasReturn(s.Body) {
 			return []*sqlEval{e}
 		}
+		// if c { ...; return } else { rest }  /  if c { rest } else { ...; return }:
+		// the side that leaves is a guard, the other side is simply what follows
+		endsLeaving := func(b *ast.BlockStmt) bool {
+			if b == nil || len(b.List) == 0 {
+				return false
+			}
+			switch x := b.List[len(b.List)-1].(type) {
+			case *ast.ReturnStmt:
+				return true
+			case *ast.BranchStmt:
+				return x.Tok == token.CONTINUE || x.Tok == token.BREAK
+			}
+			return false
+		}
+		if s.Else != nil && endsLeaving(s.Body) {
+			switch el := s.Else.(type) {
+			case *ast.BlockStmt:
+				return e.stmts(el.List, onReturn)
+			case *ast.IfStmt:
+				return e.stmt(el, onReturn)
+			}
+		}
+		if eb, ok := s.Else.(*ast.BlockStmt); ok && endsLeaving(eb) && !endsLeaving(s.Body) {
+			return e.stmts(s.Body.List, onReturn)
+		}
 		if s.Else == nil {
 			if len(s.Body.List) == 1 {
 				if _, ok := s.Body.List[0].(*ast.BranchStmt); ok {
